@@ -155,7 +155,8 @@ ClauseIds == {
  "C15.validate", "C15.roundtrip",
  "C16.flags", "C16.bidder_level", "C16.price", "C16.released",
  "C18.accept", "C18.unchanged",
- "C19.frame", "C19.not_due", "C19.terms", "C19.bid_terms", "C19.ids" }
+ "C19.frame", "C19.not_due", "C19.terms", "C19.bid_terms", "C19.ids",
+ "C17.once", "C17.args", "C17.before", "C17.veto" }
 
 ByProp == [
   C01 |-> {"C01.sell", "C01.pay", "C01.vest", "C01.other_denoms"},
@@ -173,6 +174,7 @@ ByProp == [
   C13 |-> {"C13.rule", "C13.limit", "C13.period", "C13.bounded"},
   C15 |-> {"C15.validate", "C15.roundtrip"},
   C16 |-> {"C16.flags", "C16.bidder_level", "C16.price", "C16.released"},
+  C17 |-> {"C17.once", "C17.args", "C17.before", "C17.veto"},
   C18 |-> {"C18.accept", "C18.unchanged"},
   C19 |-> {"C19.frame", "C19.not_due", "C19.terms", "C19.bid_terms", "C19.ids"} ]
 
@@ -308,7 +310,7 @@ Holds(c, step, g, g2) ==
   (* ---------------- C06 fixed-price FCFS ---------------- *)
   [] c = "C06.accept" ->
         (m.a = "Bid" /\ ((Exists(pre, m.id) /\ Auc(pre, m.id).type = "F") \/ m.type = "F")) =>
-           (ok <=> Accept(pre, m))
+           (ok <=> (Accept(pre, m) /\ ~Vetoed(pre, m)))
   [] c = "C06.remaining" -> \A i \in 1..nPost : LET a == post.auctions[i] IN
         (a.type = "F" /\ a.status # "Cancelled") =>
            a.remaining = a.sellAmt - AllTotal(post.bids[i], a.payDenom)
@@ -319,7 +321,7 @@ Holds(c, step, g, g2) ==
   [] c = "C06.alloc" -> \A i \in 1..nPre : SettledF(i) =>
         \A u \in Bidders(i) : Got(i, u) = BidderTotal(pre.bids[i], u, pre.auctions[i].payDenom)
   (* ---------------- C07 block processing ---------------- *)
-  [] c = "C07.ok" -> (m.a = "Block" /\ m.fault = 0) => (ok /\ ~step.extra.panic)
+  [] c = "C07.ok" -> (m.a = "Block" /\ m.fault = 0 /\ ~Vetoed(pre, m)) => (ok /\ ~step.extra.panic)
   [] c = "C07.reported" -> (m.a = "Block" /\ m.fault > 0 /\ m.fault <= step.extra.nx) => ~ok
   (* ---------------- C08 lifecycle ---------------- *)
   [] c = "C08.succ" -> \A i \in 1..nPre :
@@ -391,7 +393,7 @@ Holds(c, step, g, g2) ==
   [] c = "C10.msg_rejected" -> m.a = "MsgAddAllowed" => (~ok /\ post = pre)
   [] c = "C10.switch" -> ~post.switchOn
   (* ---------------- C11 bids only grow ---------------- *)
-  [] c = "C11.accept" -> m.a = "Modify" => (ok <=> Accept(pre, m))
+  [] c = "C11.accept" -> m.a = "Modify" => (ok <=> (Accept(pre, m) /\ ~Vetoed(pre, m)))
   [] c = "C11.effects" -> (m.a = "Modify" /\ ok) =>
         LET b == pre.bids[tgt][m.bid] nb == post.bids[tgt][m.bid] IN
         /\ nb = [b EXCEPT !.price = m.price, !.amt = m.amt]
@@ -411,7 +413,7 @@ Holds(c, step, g, g2) ==
         /\ nb.price >= b.price /\ nb.amt >= b.amt /\ Reserve(nb, pd) >= Reserve(b, pd)
         /\ (<<nb.price, nb.amt>> # <<b.price, b.amt>>) => (m.a = "Modify" /\ ok /\ tgt = i /\ m.bid = k)
   (* ---------------- C12 cancel ---------------- *)
-  [] c = "C12.accept" -> m.a = "Cancel" => (ok <=> CancelGuard(pre, m))
+  [] c = "C12.accept" -> m.a = "Cancel" => (ok <=> (CancelGuard(pre, m) /\ ~Vetoed(pre, m)))
   [] c = "C12.effects" -> (m.a = "Cancel" /\ ok) =>
         LET a == pre.auctions[tgt] IN
         /\ post.auctions[tgt].status = "Cancelled"
@@ -460,8 +462,17 @@ Holds(c, step, g, g2) ==
         /\ (pre.auctions[i].type = "B" /\ ~SettledB(i)) => post.auctions[i].matchedPrice = pre.auctions[i].matchedPrice
   [] c = "C16.released" -> \A i \in 1..nPost :
         g2.vestOut[i] = Sum(MapSeq(post.vqs[i], LAMBDA e : IF e.released THEN e.amt ELSE 0))
+  (* ---------------- C17 hooks ---------------- *)
+  [] c = "C17.once" -> (ok /\ pre.nl > 0) =>
+        MapSeq(step.hooks, LAMBDA e : <<e.h, e.l>>) = MapSeq(Do(pre, m).hooks, LAMBDA e : <<e.h, e.l>>)
+  [] c = "C17.args" -> (ok /\ pre.nl > 0) =>
+        MapSeq(step.hooks, LAMBDA e : e.args) = MapSeq(Do(pre, m).hooks, LAMBDA e : e.args)
+  [] c = "C17.before" -> \A k \in 1..Len(step.hooks) : ~IsAfterHook(step.hooks[k].h) => ~step.hooks[k].seen
+  [] c = "C17.veto" -> (pre.nl > 0 /\ Vetoed(pre, m)) =>
+        /\ ~ok /\ post = pre
+        /\ MapSeq(step.hooks, LAMBDA e : <<e.h, e.l>>) = MapSeq(Do(pre, m).hooks, LAMBDA e : <<e.h, e.l>>)
   (* ---------------- C18 acceptance exactness ---------------- *)
-  [] c = "C18.accept" -> IsMsg(m) => (ok <=> Accept(pre, m))
+  [] c = "C18.accept" -> IsMsg(m) => (ok <=> (Accept(pre, m) /\ ~Vetoed(pre, m)))
   [] c = "C18.unchanged" -> ~ok => post = pre
   (* ---------------- C19 frame, immutable terms ---------------- *)
   [] c = "C19.frame" -> (IsMsg(m) \/ IsApi(m)) => \A j \in 1..nPre : j # tgt => AucView(post, j) = AucView(pre, j)
